@@ -27,6 +27,15 @@ func genC06(t *rapid.T) C06Scn {
 		if rapid.IntRange(0, 7).Draw(t, "issuspect") == 0 {
 			d.Suspect = rapid.IntRange(1, 3).Draw(t, "suspect")
 		}
+		if rapid.IntRange(0, 3).Draw(t, "simultaneous") == 0 {
+			d.Also = rapid.SliceOfN(rapid.IntRange(0, 3), 1, 3).Draw(t, "also")
+			if rapid.Bool().Draw(t, "simremote") {
+				d.Origin = rapid.IntRange(0, 2).Draw(t, "simorigin") // simultaneity applies to remote origins
+			}
+			if rapid.IntRange(0, 2).Draw(t, "simsuspect") == 0 {
+				d.Suspect = rapid.IntRange(1, 3).Draw(t, "simsus")
+			}
+		}
 		s.Deliveries = append(s.Deliveries, d)
 	}
 	return s
@@ -34,7 +43,7 @@ func genC06(t *rapid.T) C06Scn {
 
 func TestC06(t *testing.T) {
 	st := vx.NewStats("C06", "model", "one real node with 2-4 scripted peers; 1-25 deliveries (link, origin from {3 remote names, the peers, the node itself}, "+
-		"epoch e0<e1<e2, sequence 0-5, adjacency from a pool, fresh or verbatim replay of an earlier delivery, optional suspected-duplicate notice); reference model keeps "+
+		"epoch e0<e1<e2, sequence 0-5, adjacency from a pool, fresh or verbatim replay of an earlier delivery, optional suspected-duplicate notice, optionally the same update arriving on 2-4 links at the same moment); reference model keeps "+
 		"per origin the newest accepted (epoch, seq) and the seen IDs; oracle = KnownConnectionCosts snapshot before/after each delivery + relays seen by each peer; "+
 		"non-trivial = a stale or replayed delivery follows an accepted one for the same origin (>=2 neighbours); distinct by canonical JSON")
 	defer st.Flush()
